@@ -121,7 +121,7 @@ func genFunc(rng *rand.Rand, idx int) fn {
 	}
 	steps := 1 + rng.IntN(4)
 	for i := 0; i < steps; i++ {
-		switch rng.IntN(18) {
+		switch rng.IntN(19) {
 		case 0: // phi
 			fmt.Fprintf(&b, "\tif c {\n\t\tv = %s\n\t}\n", src())
 		case 1: // swap in a loop: parallel assignment through phis
@@ -175,6 +175,8 @@ func genFunc(rng *rand.Rand, idx int) fn {
 			} else {
 				fmt.Fprintf(&b, "\tswitch x.(type) {\n\tcase nil, %s:\n\t\tv = %s\n\t}\n", k.typ, src())
 			}
+		case 17: // a loop that is a single self-looping block; the value of the previous iteration survives
+			fmt.Fprintf(&b, "\t{\n\t\tvar last %s = v\n\t\tfor {\n\t\t\tlast = v\n\t\t\tv = %s\n\t\t\tif dec(&n) {\n\t\t\t\tcontinue\n\t\t\t}\n\t\t\tbreak\n\t\t}\n\t\tv = last\n\t}\n", k.typ, src())
 		case 11: // loop-carried
 			fmt.Fprintf(&b, "\tfor i := 0; i < n; i++ {\n\t\tif i == 1 {\n\t\t\tv = %s\n\t\t\tcontinue\n\t\t}\n\t\tif v == nil {\n\t\t\tbreak\n\t\t}\n\t}\n", src())
 		case 12: // use that implies non-nil (may panic; panicking calls are excluded)
@@ -219,7 +221,7 @@ func helpers() string {
 	for _, k := range kinds {
 		fmt.Fprintf(&b, "var g%s %s\n\nfunc id%s(v %s) %s { return v }\n\n", k.name, k.typ, k.name, k.typ, k.typ)
 	}
-	b.WriteString("func idPtr(v *int) *int { return v }\n\n")
+	b.WriteString("func idPtr(v *int) *int { return v }\n\n// dec counts n down and reports whether to go round again.\nfunc dec(n *int) bool { *n--; return *n > 0 }\n\n")
 	b.WriteString("// generic relays: T may be instantiated with an interface type, whose nil converts to a nil interface\nfunc genAny[T any](x T) any { return x }\n\nfunc genErr[T error](x T) error { return x }\n")
 	return b.String()
 }
